@@ -95,7 +95,7 @@ func Plans() map[string]*Plan {
 		p.AutoP = 0.3
 		p.SkipNameCheckP = 0.5
 		ps["C03"] = &Plan{Prop: "C03", Level: "exploration",
-			Parts: []Part{turnPart("C03", "S-TURN/deep-reads", 6000, 300000, p, RunOpts{DeepReads: true})},
+			Parts: []Part{turnPart("C03", "S-TURN/deep-reads", 9000, 900000, p, RunOpts{DeepReads: true})},
 			Rule:  "S-TURN histories (seeded; 1-2 handles, 4-22 ops, all record kinds, range/auto/full compaction, swarm Config); a run is non-trivial when a raw merged view over >=2 tables was compared and at least one seek was checked; distinct = distinct (interleaving hash, list versions, probe vector)",
 			Nontrivial: func(r *RunResult) bool { return r.Probes["raw-merged-multi"] > 0 && r.Probes["seek-ref"] > 0 }}
 	}
@@ -105,8 +105,8 @@ func Plans() map[string]*Plan {
 		p.BadTxn = 0.05
 		ps["C04"] = &Plan{Prop: "C04", Level: "exploration",
 			Parts: []Part{
-				concPart("C04", "S-CONC", 12000, 600000, p, RunOpts{}),
-				timePart("C04", "S-TIME", 2000, 100000, p, RunOpts{}),
+				concPart("C04", "S-CONC", 40000, 4000000, p, RunOpts{Porcupine: true}),
+				timePart("C04", "S-TIME", 8000, 800000, p, RunOpts{Porcupine: true}),
 			},
 			Rule:       "S-CONC/S-TIME: 2-4 simulated processes, 2-6 ops each, interleaved at single filesystem calls by PCT/sticky/uniform schedulers with window biases; non-trivial = at least 3 schedule segments and at least 2 commits; distinct = distinct hash of the shared-path event sequence projected to (task, call kind, path class, result)",
 			Nontrivial: concNontrivial}
@@ -120,8 +120,8 @@ func Plans() map[string]*Plan {
 		p.BadTxn = 0.08 // stale update indices, also inside multi-table Additions
 		ps["C05"] = &Plan{Prop: "C05", Level: "exploration",
 			Parts: []Part{
-				concPart("C05", "S-CONC", 8000, 400000, p, RunOpts{}),
-				crashPart("C05", "S-CRASH-RAND", 6000, 300000, p, RunOpts{}),
+				concPart("C05", "S-CONC", 24000, 2400000, p, RunOpts{}),
+				crashPart("C05", "S-CRASH-RAND", 18000, 1800000, p, RunOpts{}),
 			},
 			Rule:       "S-CONC and S-CRASH-RAND; list-integrity checked after every mutating filesystem call of every process and after every crash; non-trivial = >=3 schedule segments and >=2 list versions; distinct = distinct projected event-sequence hash",
 			Nontrivial: concNontrivial}
@@ -131,8 +131,8 @@ func Plans() map[string]*Plan {
 		p := baseProfile()
 		ps["C06"] = &Plan{Prop: "C06", Level: "fault_enumeration",
 			Parts: []Part{
-				{Name: "S-CRASH-ENUM", Quick: 700, Thorough: 40000, Gen: func(seed uint64) *RunSpec { return GenCrashEnum("C06", seed) }, Exec: ExecCrashEnum},
-				crashPart("C06", "S-CRASH-RAND", 3000, 150000, p, RunOpts{}),
+				{Name: "S-CRASH-ENUM", Quick: 1500, Thorough: 150000, Gen: func(seed uint64) *RunSpec { return GenCrashEnum("C06", seed) }, Exec: ExecCrashEnum},
+				crashPart("C06", "S-CRASH-RAND", 8000, 800000, p, RunOpts{}),
 			},
 			Rule: "S-CRASH-ENUM: seeded prefix history (0-8 ops, 2 handles, swarm Config) + one target operation (Add, multi-table Addition, CompactAll, expiry, range compaction, AutoCompact, Clean, Close, reopen); the process is killed immediately before EVERY one of the target's K filesystem calls (exhaustive per instance), then a possibly stale survivor process and a fresh process continue. evaluations = executions (one per crash point, plus the crash-free baseline of each instance, plus S-CRASH-RAND runs); distinct_nontrivial = distinct (target operation kind, kind of the call the crash preceded, class of its path, position bucket inside the operation) combinations actually crashed at",
 			Nontrivial: func(r *RunResult) bool { return r.Crashes > 0 }}
@@ -147,7 +147,7 @@ func Plans() map[string]*Plan {
 		p.RefsPerTxn = [2]int{0, 4}
 		p.LogsPerTxn = [2]int{0, 3}
 		ps["C07"] = &Plan{Prop: "C07", Level: "exploration",
-			Parts: []Part{turnPart("C07", "S-TURN/compaction", 8000, 400000, p, RunOpts{})},
+			Parts: []Part{turnPart("C07", "S-TURN/compaction", 24000, 2400000, p, RunOpts{})},
 			Rule:  "S-TURN histories with compactions of arbitrary contiguous ranges, CompactAll and auto-compaction; non-trivial = at least one compaction committed; distinct = distinct (event hash)",
 			Nontrivial: func(r *RunResult) bool {
 				for k, n := range r.CallCounts {
@@ -164,8 +164,8 @@ func Plans() map[string]*Plan {
 		p.InitMax = 6
 		ps["C08"] = &Plan{Prop: "C08", Level: "exploration",
 			Parts: []Part{
-				concPart("C08", "S-CONC/lock-heavy", 10000, 500000, p, RunOpts{}),
-				crashPart("C08", "S-CRASH-RAND", 3000, 150000, p, RunOpts{}),
+				concPart("C08", "S-CONC/lock-heavy", 30000, 3000000, p, RunOpts{}),
+				crashPart("C08", "S-CRASH-RAND", 9000, 900000, p, RunOpts{}),
 			},
 			Rule:       "lock-heavy S-CONC/S-CRASH-RAND (compactions racing Adds and each other); lock-tenure monitor on every create/remove/rename of *.lock; non-trivial = a lock acquisition failed with EEXIST or another process ran inside a compaction's unlocked window; distinct = distinct projected event-sequence hash",
 			Nontrivial: func(r *RunResult) bool {
@@ -180,7 +180,7 @@ func Plans() map[string]*Plan {
 		p.HandlesPerTask = 4
 		p.AutoP = 0.4
 		ps["C09"] = &Plan{Prop: "C09", Level: "exploration",
-			Parts: []Part{turnPart("C09", "S-TURN/stale-handles", 10000, 500000, p, RunOpts{})},
+			Parts: []Part{turnPart("C09", "S-TURN/stale-handles", 24000, 2400000, p, RunOpts{})},
 			Rule:  "S-TURN histories over 2-4 handles; non-trivial = a write was attempted through a stale handle; distinct = distinct event hash",
 			Nontrivial: func(r *RunResult) bool { return r.Probes["op-through-stale-handle"] > 0 }}
 	}
@@ -197,8 +197,8 @@ func Plans() map[string]*Plan {
 		p.MinOps, p.MaxOps = 3, 7
 		ps["C10"] = &Plan{Prop: "C10", Level: "exploration",
 			Parts: []Part{
-				concPart("C10", "S-CONC/readers-vs-churn", 8000, 400000, p, RunOpts{}),
-				timePart("C10", "S-TIME", 2000, 100000, p, RunOpts{}),
+				concPart("C10", "S-CONC/readers-vs-churn", 40000, 4000000, p, RunOpts{}),
+				timePart("C10", "S-TIME", 8000, 800000, p, RunOpts{}),
 			},
 			Rule:       "reader/reloader processes against 1-3 churn processes (Add, compactions), every ReadAt/open a scheduling point; non-trivial = a reload hit a vanished table or a read ran through a handle that was stale; distinct = distinct projected event-sequence hash",
 			Nontrivial: func(r *RunResult) bool { return probeAny(r, "reload-enoent", "op-through-stale-handle") && len(r.Segs) > 2 }}
@@ -216,7 +216,7 @@ func Plans() map[string]*Plan {
 		p.RefsPerTxn = [2]int{1, 8}
 		p.PopularP = 0.3
 		ps["C11"] = &Plan{Prop: "C11", Level: "exploration",
-			Parts: []Part{turnPart("C11", "S-TURN/refsfor", 5000, 250000, p, RunOpts{DeepReads: true, DeepRefsFor: true})},
+			Parts: []Part{turnPart("C11", "S-TURN/refsfor", 5000, 500000, p, RunOpts{DeepReads: true, DeepRefsFor: true})},
 			Rule:  "S-TURN histories with shared object ids, re-pointed and deleted refs, peeled values, object index on/off, small blocks, popular-oid runs; RefsFor on stack view, raw merged sub-ranges and single tables vs filter of the full scan; non-trivial = a table with an object index was queried and a query had hits; distinct = distinct event hash",
 			Nontrivial: func(r *RunResult) bool {
 				return r.Probes["table-with-obj-index"] > 0 && probeAny(r, "refsfor-hit-table", "refsfor-hit-stack-view")
@@ -233,7 +233,7 @@ func Plans() map[string]*Plan {
 		p.HandlesPerTask = 2
 		p.RefsPerTxn = [2]int{1, 3}
 		ps["C12"] = &Plan{Prop: "C12", Level: "exploration",
-			Parts: []Part{turnPart("C12", "S-TURN/prefix-names", 12000, 600000, p, RunOpts{})},
+			Parts: []Part{turnPart("C12", "S-TURN/prefix-names", 40000, 4000000, p, RunOpts{})},
 			Rule:  "S-TURN histories over a prefix-rich alphabet (a, a/b, a/b/c, a/bb, ab, b, b/a, malformed names), single-table Adds and multi-table Additions; the model decides legality; non-trivial = at least one transaction was rejected for a name conflict and one committed; distinct = distinct event hash",
 			Nontrivial: func(r *RunResult) bool { return r.Probes["rejected-name"] > 0 && r.Versions > 1 }}
 	}
@@ -246,7 +246,7 @@ func Plans() map[string]*Plan {
 		p.LogsPerTxn = [2]int{1, 4}
 		p.RefsPerTxn = [2]int{0, 2}
 		ps["C13"] = &Plan{Prop: "C13", Level: "exploration",
-			Parts: []Part{turnPart("C13", "S-TURN/expiry", 8000, 400000, p, RunOpts{})},
+			Parts: []Part{turnPart("C13", "S-TURN/expiry", 20000, 2000000, p, RunOpts{})},
 			Rule:  "S-TURN stacks with several log entries per ref across tables; expiry configurations with each limit unset/below/inside/equal/above; non-trivial = an expiry compaction committed; distinct = distinct event hash",
 			Nontrivial: func(r *RunResult) bool { return r.Probes["expire-commit"] > 0 }}
 	}
@@ -262,9 +262,9 @@ func Plans() map[string]*Plan {
 		q.MinOps, q.MaxOps = 3, 16
 		ps["C16"] = &Plan{Prop: "C16", Level: "exploration",
 			Parts: []Part{
-				concPart("C16", "S-CONC/failure-paths", 8000, 400000, p, RunOpts{}),
-				crashPart("C16", "S-CRASH-RAND", 3000, 150000, p, RunOpts{}),
-				turnPart("C16", "S-TURN", 3000, 150000, q, RunOpts{}),
+				concPart("C16", "S-CONC/failure-paths", 24000, 2400000, p, RunOpts{}),
+				crashPart("C16", "S-CRASH-RAND", 9000, 900000, p, RunOpts{}),
+				turnPart("C16", "S-TURN", 9000, 900000, q, RunOpts{}),
 			},
 			Rule:       "S-CONC with failure paths provoked (contended Adds, rejected transactions, lost lock races, empty stacks, Clean/Close in all states), S-CRASH-RAND, S-TURN; residue monitors at every idle point and at quiescence; non-trivial = some operation failed or lost a lock race; distinct = distinct projected event-sequence hash",
 			Nontrivial: func(r *RunResult) bool {
@@ -288,9 +288,9 @@ func Plans() map[string]*Plan {
 		p.SmallBlocks = true
 		ps["C17"] = &Plan{Prop: "C17", Level: "exploration",
 			Parts: []Part{
-				{Name: "S-GROW", Quick: 400, Thorough: 6000, Gen: func(seed uint64) *RunSpec { return GenGrow("C17", seed, 1024) }},
-				{Name: "S-GROW/large", Quick: 16, Thorough: 1500, Gen: func(seed uint64) *RunSpec { return GenGrow("C17", seed, 4096) }},
-				turnPart("C17", "S-TURN/auto-compaction", 6000, 300000, p, RunOpts{}),
+				{Name: "S-GROW", Quick: 400, Thorough: 20000, Gen: func(seed uint64) *RunSpec { return GenGrow("C17", seed, 1024) }},
+				{Name: "S-GROW/large", Quick: 16, Thorough: 3000, Gen: func(seed uint64) *RunSpec { return GenGrow("C17", seed, 4096) }},
+				turnPart("C17", "S-TURN/auto-compaction", 6000, 600000, p, RunOpts{}),
 			},
 			Rule: "S-GROW: single writer, N in [64,4096] transactions of identical table size (verified from the disk at each commit; payload shape and Config vary per run), depth <= 2*log2(N) after every Add and EntriesWritten <= N*log2(N)*entriesPerTxn at the end; every auto-compaction decision is compared with the size-class rule computed from file sizes on the simulated disk (skipped when whole-file and payload readings classify differently); S-TURN histories with auto-compaction for the valid-range/progress monitor. non-trivial = at least one auto-compaction committed or one decision judged; distinct = distinct workload shapes / event hashes",
 			Nontrivial: func(r *RunResult) bool {
@@ -311,7 +311,7 @@ func Plans() map[string]*Plan {
 	// ---- C18
 	{
 		ps["C18"] = &Plan{Prop: "C18", Level: "exploration", MemLimit: 6 << 30, DeathIsViolation: true,
-			Parts: []Part{{Name: "S-CORRUPT", Quick: 150000, Thorough: 8000000, Gen: func(seed uint64) *RunSpec { return GenCorrupt("C18", seed) }}},
+			Parts: []Part{{Name: "S-CORRUPT", Quick: 250000, Thorough: 30000000, Gen: func(seed uint64) *RunSpec { return GenCorrupt("C18", seed) }}},
 			Rule:  "S-CORRUPT: a valid table (real Writer; 0-60 refs of all kinds, 0-20 log entries, swarm Config incl. small blocks, both hash sizes) hit by 1-8 storage faults (bit flip, byte overwrite, truncation, zeroed aligned range, splice from another offset or table, u24/u16 length-field edits, footer-field edits with the CRC repaired, header copied to footer with CRC repaired, trailing garbage) and, in faulty-source mode, transient short/empty/failed ReadBlock results; workload NewReader + full scans + seeks + RefsFor through the library's ByteBlockSource, through a clamping simulated-disk source, and through NewStack/Merged over a directory holding the damaged table; non-trivial = the damaged bytes differ from the original; distinct = distinct damaged byte strings",
 			Nontrivial: func(r *RunResult) bool { return r.Probes["corrupt-noop"] == 0 && r.Probes["corrupt-unbuildable"] == 0 },
 			Assumptions: []string{"arbitrary byte strings are reached only as mutations of valid tables; there is no coverage guidance", "pure CPU loops are caught by iteration caps and a 120 s per-run watchdog"}}
